@@ -19,3 +19,4 @@ PROP = {'engine': 'stack',
                'automaton.',
  'level_note': 'response-mode header variants are outside the alphabet; at most one parked call at a time; no extensions',
  'technique': 'property-based testing (rapid), stateful model-based: reference lifecycle automaton as oracle and generator guide'}
+PROP['rule'] += " Round-6 addition: warmServe - in half of the second-environment cases the first environment's runtime serves one invocation with a response and one with an error before it dies, so that every route was used by a runtime of an earlier environment."
